@@ -79,9 +79,14 @@ HARNESS(set_navigation_node_rests_on_id, 12, [std::time::Instant::now => stub_no
     let cell = RefCell::new(arbitrary_state(n));
     let k = sym::below(2);
     let off = sym::below(4);
+    // which place markers are set before the call (the marked node is IDS[0] or IDS[1], never the sentinel)
+    let mut marked = [false; MAX_PLACE_MARKERS];
+    { let s0 = cell.borrow(); let mut i = 0; while i < MAX_PLACE_MARKERS { marked[i] = !is_default(&s0.place_markers[i]); i += 1; } }
     let _ = set_nav_node(&cell, id_string(k), off);
     let s = cell.borrow();
     cover!(n == 2, "two stack entries reachable");
+    let mut i = 0;
+    while i < MAX_PLACE_MARKERS { assert!(marked[i] == !is_default(&s.place_markers[i]), "set_navigation_node (same expression) changes a place marker: a later MoveToN does not return to the marked node"); i += 1; }
     assert!(s.position_stack.len() == 1 && s.command_stack.len() == 1, "stack is not exactly the new position");
     let (p, c) = s.top().unwrap();
     assert!(p.current_node.as_bytes() == IDS[k].as_bytes() && p.current_node_offset == off && c.len() == 4, "top is not the requested node");
@@ -312,7 +317,7 @@ def _build(run, crate_name, only_kernel=False):
              exclusions={"place-marker-survives": "PLACE_MARKER"},
              claim="after the state-changing statement of set_mathml: stacks empty, where_am_i default, all 10 place markers default"),
         dict(id="K-C11-a.set_navigation_node", harness="set_navigation_node_rests_on_id", covers=["two stack entries reachable"], role=lambda v, o: "any",
-             claim="after set_navigation_node(id, off): stack == [(id, off, None)]"),
+             claim="after set_navigation_node(id, off): stack == [(id, off, None)] and every place marker is as before"),
         dict(id="K-C11-a.one_rule_application", harness="one_rule_application_keeps_invariants", covers=["a move that pushes reachable", "read command reachable"],
              role=lambda v, o: "sync" if "out of sync" in o else ("read-moves" if "moved the position" in o else ("illegal-id" if "illegal node id" in o else "other")),
              claim="one rule application from any state: stacks same length, at most one push, read-type commands keep top(), ILLEGAL id never on top, bottom entry kept"),
